@@ -13,7 +13,7 @@ logger = logging.getLogger(__name__)
 
 def troff_escape(value: str) -> str:
     """Escape values that troff may interpret."""
-    value = value.replace(r"\\", r"\e")
+    value = value.replace("\\", r"\e")
     replace_pairs = [
         ("-", r"\-"),
         (r"'", r"\(aq"),
@@ -24,11 +24,18 @@ def troff_escape(value: str) -> str:
     for in_char, out_markup in replace_pairs:
         value = value.replace(in_char, out_markup)
 
-    # prevent interpretation of "." at line start
+    # prevent interpretation of "." at the start of any line. A leading "'" (the other
+    # control character) cannot remain: it has been replaced by \(aq above.
+    value = value.replace("\n.", "\n\\&.")
     if value.startswith("."):
         return r"\&" + value
 
     return value
+
+
+def troff_escape_arg(value: str) -> str:
+    """Escape document text used as a macro argument: it must stay on the macro's own line."""
+    return troff_escape(value.replace("\n", " "))
 
 
 @dataclass
@@ -122,11 +129,16 @@ class TroffNodeHandler:
                     self.macro("PP")
 
         if node.element is ManNode.ElementType.MANPAGE:
-            self.macro("TH", f"{node.attributes['name']} {node.attributes['section']}")
+            self.macro(
+                "TH",
+                troff_escape_arg(
+                    f"{node.attributes['name']} {node.attributes['section']}"
+                ),
+            )
         elif node.element is ManNode.ElementType.SECTION:
             self.section_depth += 1
             macro_name = "SH" if self.section_depth <= 2 else "SS"
-            self.macro(macro_name, node.attributes["name"].upper())
+            self.macro(macro_name, troff_escape_arg(node.attributes["name"].upper()))
         elif node.element is ManNode.ElementType.URL:
             # GNU groff has a .UR/.UE macro set for urls. They work a little
             # oddly and don't seem to do anything on some platforms, so don't use that.
